@@ -138,7 +138,7 @@ inductive CoreObj where
   | splitKey (s : SplitFields) (kb : Option CoreKeyBlock)
   | secretData (dataType : Fld Nat) (kb : Option CoreKeyBlock)
   /-- `value = none`: the `opaque_data_value` attribute is `None` -/
-  | opaque (opaqueType : Fld Nat) (value : Option String)
+  | opaqueObj (opaqueType : Fld Nat) (value : Option String)
   deriving DecidableEq, Repr, Inhabited
 
 def CoreObj.kind : CoreObj → Kind
@@ -146,7 +146,7 @@ def CoreObj.kind : CoreObj → Kind
   | .key kk _ => kk.kind
   | .splitKey .. => .splitKey
   | .secretData .. => .secretData
-  | .opaque .. => .opaqueObject
+  | .opaqueObj .. => .opaqueObject
 
 /-! ## pie objects (`kmip/pie/objects.py`) -/
 
@@ -178,7 +178,7 @@ inductive PieSpecific where
   | key (cr : PieCrypto) (kk : KeyKind) (k : PieKey)
   | splitKey (cr : PieCrypto) (k : PieKey) (s : SplitFields)
   | secretData (cr : PieCrypto) (dataType : Option Nat)
-  | opaque (opaqueType : Option Nat)
+  | opaqueObj (opaqueType : Option Nat)
   deriving DecidableEq, Repr, Inhabited
 
 def PieSpecific.kind : PieSpecific → Kind
@@ -186,7 +186,7 @@ def PieSpecific.kind : PieSpecific → Kind
   | .key _ kk _ => kk.kind
   | .splitKey .. => .splitKey
   | .secretData .. => .secretData
-  | .opaque .. => .opaqueObject
+  | .opaqueObj .. => .opaqueObject
 
 /-- what an instance holds after its constructor ran (`ManagedObject.__init__` l.137-161 + the subclass) -/
 structure PieObj where
@@ -206,14 +206,14 @@ def PieObj.kind (p : PieObj) : Kind := p.spec.kind
 
 def PieSpecific.crypto? : PieSpecific → Option PieCrypto
   | .certificate cr _ | .key cr _ _ | .splitKey cr _ _ | .secretData cr _ => some cr
-  | .opaque _ => none
+  | .opaqueObj _ => none
 
 def PieSpecific.mapCrypto (f : PieCrypto → PieCrypto) : PieSpecific → PieSpecific
   | .certificate cr t => .certificate (f cr) t
   | .key cr kk k => .key (f cr) kk k
   | .splitKey cr k s => .splitKey (f cr) k s
   | .secretData cr t => .secretData (f cr) t
-  | .opaque t => .opaque t
+  | .opaqueObj t => .opaqueObj t
 
 def PieSpecific.key? : PieSpecific → Option PieKey
   | .key _ _ k | .splitKey _ k _ => some k
@@ -277,7 +277,7 @@ def pieOk (p : PieObj) : Bool :=
     (kk != .symmetric || k.format == some fmtRaw)
   | .splitKey .., _ => true
   | .secretData _ t, some _ => t.isSome
-  | .opaque t, some _ => t.isSome
+  | .opaqueObj t, some _ => t.isSome
   | _, none => false
 
 /-! ## core → pie: `ObjectFactory._build_pie_*` -/
@@ -344,7 +344,7 @@ def coreToPie : CoreObj → C PieObj
     match t with
     | none => typeErr "secret data type must be a SecretDataType enumeration"
     | some t => pure (freshPie (.secretData freshCrypto (some t)) (some value))
-  | .opaque t v => do
+  | .opaqueObj t v => do
     -- `_build_pie_opaque_object` l.127-130
     let t ← fldValue t
     match v with
@@ -352,7 +352,7 @@ def coreToPie : CoreObj → C PieObj
     | some v =>
       match t with
       | none => typeErr "opaque data type must be an OpaqueDataType enumeration"
-      | some t => pure (freshPie (.opaque (some t)) (some v))
+      | some t => pure (freshPie (.opaqueObj (some t)) (some v))
 
 /-! ## building core structures -/
 
@@ -393,12 +393,15 @@ def chkInt (what : String) : FV → C Unit
   | _ => typeErr what
 
 /-- `CryptographicParameters.__init__`: the thirteen setters in order (6 enumerations, a boolean, 6 integers) -/
+def chkCpAt (i : Nat) (v : FV) : C Unit :=
+  if i < 6 then chkEnum "enumeration" v
+  else if i == 6 then chkBool "random iv must be a boolean" v
+  else chkInt "must be an integer" v
+
 def chkCpFrom : Nat → List FV → C Unit
   | _, [] => pure ()
   | i, v :: rest => do
-    if i < 6 then chkEnum "enumeration" v
-    else if i == 6 then chkBool "random iv must be a boolean" v
-    else chkInt "must be an integer" v
+    chkCpAt i v
     chkCpFrom (i + 1) rest
 
 def chkKeyInfo (k : KeyInfo) : C Unit := do
@@ -480,9 +483,9 @@ def pieToCore (p : PieObj) : C CoreObj :=
     pure (.secretData (optFld t)
       (some { format := .val fmtOpaque, compression := none, keyValue := some ⟨.bytes (p.value.getD ""), 0⟩,
               alg := .absent, len := .absent, wrapping := none }))
-  | .opaque t =>
+  | .opaqueObj t =>
     -- `_build_core_opaque_object` l.223-229
-    pure (.opaque (optFld t) (some (p.value.getD "")))
+    pure (.opaqueObj (optFld t) (some (p.value.getD "")))
 
 /-! ## pie → core, engine direction (`KmipEngine._build_core_object`; the server's Get) -/
 def engineBuildCore (p : PieObj) : C CoreObj :=
@@ -505,8 +508,8 @@ def engineBuildCore (p : PieObj) : C CoreObj :=
     | .secretData _ t => do
       let kb ← engineKeyBlock (some fmtOpaque) p.value none none none
       pure (.secretData (optFld t) (some kb))
-    | .opaque t =>
-      pure (.opaque (optFld t) (some (p.value.getD "")))
+    | .opaqueObj t =>
+      pure (.opaqueObj (optFld t) (some (p.value.getD "")))
 
 /-! ## pie ⇄ SQL columns -/
 
@@ -586,7 +589,7 @@ inductive RowSpecific where
   | key (cr : CryptoRow) (kk : KeyKind) (k : KeyRow)
   | splitKey (cr : CryptoRow) (k : KeyRow) (s : SplitRow)
   | secretData (cr : CryptoRow) (dataType : Int)
-  | opaque (opaqueType : Int)
+  | opaqueObj (opaqueType : Int)
   deriving DecidableEq, Repr, Inhabited
 
 def RowSpecific.kind : RowSpecific → Kind
@@ -594,7 +597,7 @@ def RowSpecific.kind : RowSpecific → Kind
   | .key _ kk _ => kk.kind
   | .splitKey .. => .splitKey
   | .secretData .. => .secretData
-  | .opaque .. => .opaqueObject
+  | .opaqueObj .. => .opaqueObject
 
 /-- one stored object: the `managed_objects` row, its `managed_object_names` rows (ordered by id) and the
 sub-table rows -/
@@ -657,7 +660,7 @@ def rowOf (p : PieObj) : Row :=
       | .key cr kk k => .key (encCrypto cr) kk (encKey k)
       | .splitKey cr k s => .splitKey (encCrypto cr) (encKey k) (encSplit s)
       | .secretData cr t => .secretData (encCrypto cr) (encEnum t)
-      | .opaque t => .opaque (encEnum t),
+      | .opaqueObj t => .opaqueObj (encEnum t),
     objectType := encEnum p.objectType, value := p.value, nameIndex := p.nameIndex,
     names := p.names.map (fun n => ⟨n.name, n.index, encEnum n.nameType⟩),
     policy := p.policy.getD "default", sensitive := p.sensitive, initialDate := p.initialDate,
@@ -675,7 +678,7 @@ def rowToPie (r : Row) : PieObj :=
       | .key cr kk k => .key (decCrypto cr) kk (decKey k)
       | .splitKey cr k s => .splitKey (decCrypto cr) (decKey k) (decSplit s)
       | .secretData cr t => .secretData (decCrypto cr) (decEnum t)
-      | .opaque t => .opaque (decEnum t),
+      | .opaqueObj t => .opaqueObj (decEnum t),
     objectType := decEnum r.objectType, value := r.value, nameIndex := r.nameIndex,
     names := r.names.map (fun n => ⟨n.name, n.index, decEnum n.nameType⟩),
     policy := some r.policy, sensitive := r.sensitive, initialDate := r.initialDate, owner := r.owner }
